@@ -288,13 +288,17 @@ class CallMixin:
             st.env.update(zip(params, args))
             if f.module is not None:
                 self.module = f.module          # globals of an inlined body resolve in the module that defines it
+            self._inline_depth = getattr(self, "_inline_depth", 0) + 1
             try:
                 outs = self.exec_block(node.body, st)
             finally:
+                self._inline_depth -= 1
                 env_after, st.env = st.env, saved
                 self.module = saved_mod
             if allow_none_return and len(outs) == 1 and outs[0][1] == ("normal",) and outs[0][0] is st:
                 return None
+            if len(outs) == 1 and outs[0][1][0] == "raise" and outs[0][0] is st:
+                raise PyRaise(outs[0][1][1], note=f"raised by inlined helper {f.name}")
             if len(outs) != 1 or outs[0][1][0] != "return" or outs[0][0] is not st:
                 raise Unsupported(f"inlined helper {f.name} is not a single straight-line return")
             return outs[0][1][1]
